@@ -31,38 +31,9 @@ POOL = []
 _CACHE = {}
 
 
-def mini_docs():
-    """Small documents, each asking about <= 9 distinct categories (the exporter forks once per category
-    it asks about), together covering every category an error-free document's tokens can carry."""
-    from sv.ref.cells import Bar, Chord, Doc, FieldComment, GComment, Header as H, Note, Null, Op, Rest
-    from sv.ref.docs import sig, tandem, lyr, dyn, harm, fing, other
-    T = '*-'
-    M = []
-    M.append(Doc([[H('**kern')], [Bar(number='1')], [Note('4', pitch='c', acc='#', decs=((3, 'L'),))],
-                  [Rest('8', dots=1, decs=((3, ';'),))], [Note('2', dots=1, mark='', pitch='dd', decs=((3, 'J'), (0, '('), (3, '^')))], [Op(T)]]))
-    M.append(Doc([[H('**kern'), H('**text')], [Bar(number='1'), Bar(number='1')],
-                  [Chord((Note('4', pitch='e'), Note('4', pitch='g', acc='-'))), lyr('li')],
-                  [Note('8', pitch='a'), Null('.')], [Null('.'), lyr('lu')], [Op(T), Op(T)]]))
-    M.append(Doc([[H('**kern'), H('**kern')], [sig('*clefG2', 'CLEF'), sig('*clefF4', 'CLEF')], [sig('*k[f#]', 'KEY_SIGNATURE'), Null('*')],
-                  [sig('*M4/4', 'TIME_SIGNATURE'), sig('*met(c)', 'METER_SYMBOL')], [Bar(number='1'), Bar(number='1')],
-                  [Null('.'), Null('.')], [Op(T), Op(T)]]))
-    M.append(Doc([[H('**kern'), H('**foo')], [tandem('*staff1', 'STRUCTURAL'), tandem('*staff2', 'STRUCTURAL')],
-                  [tandem('*part1', 'OTHER'), Null('*')],
-                  [Bar(double=True), Bar(double=True)], [Null('.'), other('zig')], [Op(T), Op(T)]]))
-    M.append(Doc([[H('**kern'), H('**kern')], [tandem('*MM120', 'OTHER_CONTEXTUAL'), tandem('*xywh-1:10,20,30,40', 'BOUNDING_BOXES')],
-                  [tandem('*above', 'ENGRAVED_SYMBOLS'), Null('*')], [Bar(number='1', type=':|!|:'), Bar(number='1', type=':|!|:')],
-                  [Rest('1'), Note('1', pitch='C')], [Op(T), Op(T)]]))
-    M.append(Doc([[H('**dynam'), H('**harm'), H('**fing'), H('**mxhm')], [Bar(number='1'), Bar(number='1'), Bar(number='1'), Bar(number='1')],
-                  [dyn('f'), harm('C7'), fing('1'), harm('G major')], [Null('.'), harm('G'), Null('.'), Null('.')],
-                  [Op(T), Op(T), Op(T), Op(T)]]))
-    M.append(Doc([[GComment('!!!COM: x')], [H('**kern')], [FieldComment('!fc')], [Note('4', pitch='c')], [Op('*^')],
-                  [Note('4', pitch='e'), FieldComment('!in')], [GComment('!! inside')], [Op('*v'), Op('*v')], [Rest('4')], [Op(T)]]))
-    return M
-
-
 def load(tier):
     global POOL
-    POOL = mini_docs()
+    POOL = docs.mini_docs()
 
 
 class CatSet:
